@@ -11,8 +11,22 @@ theorem bitLen_le (v k : Nat) : bitLen v ≤ k ↔ v < 2 ^ k := by
   · simp only [h, if_false]
     rw [← Nat.log2_lt h]; omega
 
+theorem elen (b : Nat) :
+    9 - min ((64 - b - 1) / 7) 8 =
+      if b ≤ 7 then 1 else if b ≤ 14 then 2 else if b ≤ 21 then 3 else if b ≤ 28 then 4 else if b ≤ 35 then 5
+      else if b ≤ 42 then 6 else if b ≤ 49 then 7 else if b ≤ 56 then 8 else 9 := by
+  repeat' split
+  all_goals omega
+
+theorem encodedLen_eq (v : Nat) :
+    encodedLen v =
+      if v < 128 then 1 else if v < 16384 then 2 else if v < 2097152 then 3 else if v < 268435456 then 4
+      else if v < 34359738368 then 5 else if v < 4398046511104 then 6 else if v < 562949953421312 then 7
+      else if v < 72057594037927936 then 8 else 9 := by
+  simp only [encodedLen, elen, bitLen_le, Nat.reducePow]
+
 /-- `encoded_len` is the number of 7-bit groups, at most 8, else 9 -/
-theorem encodedLen_cases (v : Nat) (hv : v < 18446744073709551616) :
+theorem encodedLen_cases (v : Nat) :
     (v < 128 ∧ encodedLen v = 1) ∨ (128 ≤ v ∧ v < 16384 ∧ encodedLen v = 2) ∨
     (16384 ≤ v ∧ v < 2097152 ∧ encodedLen v = 3) ∨ (2097152 ≤ v ∧ v < 268435456 ∧ encodedLen v = 4) ∨
     (268435456 ≤ v ∧ v < 34359738368 ∧ encodedLen v = 5) ∨
@@ -20,23 +34,12 @@ theorem encodedLen_cases (v : Nat) (hv : v < 18446744073709551616) :
     (4398046511104 ≤ v ∧ v < 562949953421312 ∧ encodedLen v = 7) ∨
     (562949953421312 ≤ v ∧ v < 72057594037927936 ∧ encodedLen v = 8) ∨
     (72057594037927936 ≤ v ∧ encodedLen v = 9) := by
-  have h7 := bitLen_le v 7
-  have h14 := bitLen_le v 14
-  have h21 := bitLen_le v 21
-  have h28 := bitLen_le v 28
-  have h35 := bitLen_le v 35
-  have h42 := bitLen_le v 42
-  have h49 := bitLen_le v 49
-  have h56 := bitLen_le v 56
-  have h64 := bitLen_le v 64
-  simp only [Nat.reducePow] at h7 h14 h21 h28 h35 h42 h49 h56 h64
-  unfold encodedLen
-  generalize bitLen v = b at *
-  simp only [Nat.min_def]
-  omega
+  rw [encodedLen_eq]
+  repeat' split
+  all_goals omega
 
 theorem encodedLen_range (v : Nat) (hv : v < 18446744073709551616) : 1 ≤ encodedLen v ∧ encodedLen v ≤ 9 := by
-  have := encodedLen_cases v hv; omega
+  have := encodedLen_cases v; omega
 
 theorem take_leBytes (k n x : Nat) (h : k ≤ n) : (leBytes n x).take k = leBytes k x := by
   induction k generalizing n x with
@@ -63,7 +66,7 @@ theorem tz_odd_mul (f j a : Nat) (h : j < f) : tz f ((2 * a + 1) * 2 ^ j) = j :=
   | zero =>
     cases f with
     | zero => omega
-    | succ f => simp [tz]; omega
+    | succ f => simp [tz]
   | succ j ih =>
     cases f with
     | zero => omega
@@ -123,8 +126,7 @@ theorem vint_small (k C D v : Nat) (r : Bytes) (hk1 : 1 ≤ k) (hk8 : k ≤ 8)
   have : (2 * v + 1) * C / 2 ^ (k' + 1) = v := by
     subst hC
     simp only [Nat.add_sub_cancel]
-    rw [Nat.pow_succ, Nat.mul_comm (2 ^ k') 2, ← Nat.div_div_eq_div_mul,
-      Nat.mul_div_cancel _ (Nat.two_pow_pos _)]
+    rw [Nat.pow_succ, ← Nat.div_div_eq_div_mul, Nat.mul_div_cancel _ (Nat.two_pow_pos _)]
     omega
   rw [this]
 
@@ -140,7 +142,7 @@ theorem vint_big (v : Nat) (r : Bytes) (hv : v < 18446744073709551616) (hlen : e
 /-- vint64: every `v < 2^64` reads back, consuming exactly the written bytes -/
 theorem readUsize_writeUsize (v : Nat) (r : Bytes) (hv : v < 18446744073709551616) :
     readUsize (writeUsize v ++ r) = .ok (v, r) := by
-  rcases encodedLen_cases v hv with h | h | h | h | h | h | h | h | h
+  rcases encodedLen_cases v with h | h | h | h | h | h | h | h | h
   · exact vint_small 1 1 128 v r (by decide) (by decide) (by decide) (by decide) h.1 h.2
   · exact vint_small 2 2 16384 v r (by decide) (by decide) (by decide) (by decide) h.2.1 h.2.2
   · exact vint_small 3 4 2097152 v r (by decide) (by decide) (by decide) (by decide) h.2.1 h.2.2
